@@ -42,7 +42,7 @@ PREDICATES['unicast_sub_after_terminal_with_backlog'] = unicast_sub_after_termin
 
 def share_stale_refcount_after_reset(case, mismatch):
     """ShareGauge trace rejected at its `end` event (upstream not released although every subscriber left), in a run where the source ended
-    (srcEnd) and a NEW execution was subscribed afterwards while a Subscribe call that had started before the end was still in flight."""
+    (srcEnd) and a NEW execution was subscribed afterwards while a call that had started before the end - a Subscribe / Unsubscribe, or the terminal call itself, whose subscribers are still being notified - was still in flight."""
     evs = case['events']
     if (mismatch.get('event') or {}).get('e') != 'end':
         return False
@@ -55,7 +55,7 @@ def share_stale_refcount_after_reset(case, mismatch):
     # a subscribe call in flight across the source's end
     inflight = {}
     for k, e in enumerate(evs[:k0]):
-        if e['e'] == 'inv' and e['s'] in ('sub', 'unsub'):     # a reference of the finished execution not yet taken / given back
+        if e['e'] == 'inv' and e['s'] in ('sub', 'unsub', 'error', 'complete'):     # a reference of the finished execution not yet taken / given back (a terminal call still in flight = its subscribers have not been released yet)
             inflight[e['p']] = k
         elif e['e'] == 'ret':
             inflight.pop(e['p'], None)
